@@ -28,7 +28,7 @@ import (
 
 type Msg = wrapperspb.BytesValue
 
-const MaxRPC = 24
+const MaxRPC = 128
 
 // Config of one scenario's world.
 type Config struct {
@@ -60,6 +60,10 @@ type World struct {
 	flags   map[string]bool
 	ids     map[int]int64
 	rawBuf  map[string][]byte
+	auto      bool // free-running mode: handlers follow autoPlans without a controller
+	pipeCap   int
+	autoPlans map[int]*autoPlan
+	rLocks    [MaxRPC]sync.Mutex
 	hands   map[int]*handState
 	allHands []*handState
 	nwait       int
@@ -74,6 +78,7 @@ type tunnelState struct {
 	openCtx  context.Context
 	cancel   context.CancelFunc
 	startRet bool
+	peer     string
 	serveRet bool
 	rawC     *rawClientEnd
 	rawS     *rawServerEnd
@@ -490,7 +495,36 @@ func (w *World) handlerStarted(h *handState) {
 	scribble(md)
 }
 
+func (w *World) acquireR(r int) { w.rLocks[r].Lock() }
+func (w *World) releaseR(r int) { w.rLocks[r].Unlock() }
+
+// goroutines of the library in the whole process (free-running mode)
+func censusAll() map[string]int {
+	buf := make([]byte, 1<<22)
+	n := runtime.Stack(buf, true)
+	out := map[string]int{}
+	for _, g := range strings.Split(string(buf[:n]), "\n\n") {
+		created := ""
+		for _, ln := range strings.Split(g, "\n") {
+			if strings.HasPrefix(ln, "created by ") {
+				created = strings.TrimPrefix(ln, "created by ")
+				if j := strings.Index(created, " in goroutine"); j >= 0 {
+					created = created[:j]
+				}
+			}
+		}
+		if !strings.Contains(created, "jhump/grpctunnel.") {
+			continue
+		}
+		out[strings.TrimPrefix(created, "github.com/jhump/grpctunnel.")]++
+	}
+	return out
+}
+
 func (w *World) runUnaryHandler(r int, ctx context.Context, dec func(interface{}) error) (interface{}, error) {
+	if w.auto {
+		return w.autoUnary(r, ctx, dec)
+	}
 	h := &handState{r: r, shape: "U", ctx: ctx, dec: dec, ret: make(chan handRet, 1)}
 	h.hw = newActor(fmt.Sprintf("hw%d", r))
 	h.hr = newActor(fmt.Sprintf("hr%d", r))
@@ -506,6 +540,9 @@ func (w *World) runUnaryHandler(r int, ctx context.Context, dec func(interface{}
 }
 
 func (w *World) runStreamHandler(r int, shape string, ss grpc.ServerStream) error {
+	if w.auto {
+		return w.autoStream(r, shape, ss)
+	}
 	h := &handState{r: r, shape: shape, ctx: ss.Context(), ss: ss, ret: make(chan handRet, 1)}
 	h.hw = newActor(fmt.Sprintf("hw%d", r))
 	h.hr = newActor(fmt.Sprintf("hr%d", r))
